@@ -1451,12 +1451,52 @@ class Interp:
 
         I(filter, _filter)
 
+        def _range(s, a, k):
+            if k or not any(is_sym(x) for x in a):
+                return NotImplemented
+            if len(a) == 1:
+                return SymRange(0, a[0], 1)
+            if len(a) == 2:
+                return SymRange(a[0], a[1], 1)
+            return SymRange(a[0], a[1], a[2])
+
+        I(range, _range)
+
         def _replace(s, a, k):
             # dataclasses.replace: native is fine (it only re-invokes the generated __init__),
             # unless the class has an interpretable __init__
             return NotImplemented
 
         I(dataclasses.replace, _replace)
+
+
+class SymRange:
+    """range() with symbolic bounds: iteration unrolls under the loop bound, forking on the exit test."""
+
+    def __init__(self, start, stop, step):
+        self.start, self.stop, self.step = start, stop, step
+
+    def __iter__(self):
+        step = self.step
+        if is_sym(step):
+            if _ctx.cur().decide(to_z3_int(step) == 0):
+                raise ValueError("range() arg 3 must not be zero")
+            pos = _ctx.cur().decide(to_z3_int(step) > 0)
+        else:
+            if step == 0:
+                raise ValueError("range() arg 3 must not be zero")
+            pos = step > 0
+        k = 0
+        bound = _ctx.cur().loop_bound
+        while True:
+            cur = self.start + k * step
+            cond = (cur < self.stop) if pos else (cur > self.stop)
+            if not (bool(cond)):
+                return
+            yield cur
+            k += 1
+            if k > bound:
+                raise BoundExceeded(f"symbolic range exceeded {bound} iterations")
 
 
 def _sym_enumerate(it, start):
